@@ -153,12 +153,23 @@ CLAIMED["C16"] = {
     "design_ref": "DESIGN.md §5 C16",
 }
 
+CLAIMED["C11"] = {
+    "category": "exploration",
+    "text": "BOUNDED only (labelled; nothing here is counted as proved): no contract can be attached to the formatter's text output and to re-parsing it (the parser is generated code neither verifier takes), so the property is checked "
+            "on the real code over a stated corpus: about 280 source texts covering every (parent, child, side) operator triple over + - * /, unary minus, constants on either side, abs / min / max blocks, all logic connectives incl. "
+            "both nestings of implies and xor, named rows, where-constants, enumerate / range iterations and all declaration forms. For each: the formatted text parses, formats to itself, and compiles to the same rendered linear model. "
+            "Two genuine defects were found this way and repaired (fix: commits): right-nested - and / (and same-level logic) lost their parentheses; a 'solve' objective was printed as 'solve true', which does not parse.",
+    "note": "Bound: the corpus in units/U11.fmt/witness.rs. Trusted: the parser (the same parser reads both texts); model equality is compared on the rendered linear model.",
+    "technique": "bounded executable check of the round trip on the real RoocParser::format (stand-in where no contract can reach; labelled bounded)",
+    "design_ref": "DESIGN.md §5 C11 / C12, §11.2",
+}
+
 NOT_APPLICABLE = {
     "C03": "quantifies over source texts through the pest-generated parser and an external MILP search; every in-repo step that can carry a contract is covered by C01/C02/C04/C05; no further function exists to attach an obligation to",
     "C06": "relates two parses; the expansion engine works on parser IL with dyn Fn callbacks, scope frames and evaluated iterables that Verus does not accept and Kani cannot execute; its specification would be a formal semantics of the whole language",
     "C09": "the operator table is data handed to pest's PrattParser and tokens come from macro-generated grammar code; neither verifier can take that code, and assuming the library implements precedence climbing would assume the property",
     "C17": "the export is text read by an independent reader; a contract would need a formal LP-format reader and a string theory for format!/push_str output; Kani cannot execute float formatting",
     "C20": "sensitivities are computed inside clarabel/good_lp; rooc only forwards them by name, so no contract on repository code decides the sign convention",
-    "C11": PENDING, "C12": PENDING,
+    "C12": PENDING,
 
 }
